@@ -66,6 +66,15 @@ pub trait ArrivalBound {
 //@end
 }
 
+// what #[auto_impl(&)] generates for references (R12)
+impl<T: ArrivalBound + ?Sized> ArrivalBound for &T {
+    open spec fn wf(&self) -> bool { (**self).wf() }
+    open spec fn na(&self, delta: int) -> int { (**self).na(delta) }
+    open spec fn na_ok(&self, delta: int) -> bool { (**self).na_ok(delta) }
+    proof fn na_props(&self) { (**self).na_props(); }
+    fn number_arrivals(&self, delta: Duration) -> (r: usize) { (**self).number_arrivals(delta) }
+}
+
 // common helper function
 //@item src/arrival/mod.rs :: fn divide_with_ceil
 fn divide_with_ceil(a: Duration, b: Duration) -> /*+*/(r:/*-*/ u64/*+*/)
